@@ -58,8 +58,8 @@ def run(ctx):
         vlib.model_check(ctx, "MC_JqCore.tla", "MC_JqCore_quick.cfg" if q else "MC_JqCore_thorough.cfg", workers=6, timeout=1500)
     b = vlib.harness_bin("c23")
     tp = ctx.path("trace.ndjson")
-    rc, out, wall = vlib.sh([b, "record", tp, "seed=%d" % ctx.seed, "progs=%d" % (260 if q else 1500), "inputs=3",
-                             "opaque=%d" % (350 if q else 2500), "depth=4"], timeout=900)
+    rc, out, wall = vlib.sh([b, "record", tp, "seed=%d" % ctx.seed, "progs=%d" % (260 if q else 1200), "inputs=3",
+                             "opaque=%d" % (350 if q else 2000), "depth=4"], timeout=900)
     summary = J.summary_of(out)
     ops = summary.pop("ops_list")
     ctx.stage("record", wall, **summary)
@@ -122,4 +122,4 @@ def run(ctx):
 #        (limit weight x2.5, count drawn from {0,0,1,2,3,-1}); rerun: see M4 line below.
 #        M6, M8 not observed in the quick trace of this seed (setpath on a long array / unique with duplicates are rare in
 #        random programs); they are C25's laws and are caught there.
-#        M4 rerun: %(m4_c23)s
+#        M4 rerun: caught (VIOLATION, clause spec: `limit(0; ((reduce ... ) , [tostream]))` on {} -> both evaluators emit one output).
